@@ -207,6 +207,40 @@ def _cases(tier):
     add("r_['1', x, y]", "lambda anp, x, y: anp.r_['1', x, y]", [(2, 2), (2, 1)], second=False)
     add("r_[x, 0.0, y]", "lambda anp, x, y: anp.r_[x, 0.5, y]", [(2,), (2,)], second=False, mode="flt")
     add("select overlapping conds", "lambda anp, x, y: anp.select([__import__('numpy').array([True, True, False, False]), __import__('numpy').array([False, True, True, False])], [x, y], default=0.5)", [(4,), (4,)], mode="flt", second=False)
+    # the SAME value in two slots of one call (a diamond collapsed into one node): total derivative = sum of both partials
+    for nm, expr, shp in (("tensordot(x,x,1)", "anp.tensordot(x, x, 1)", (2, 2)), ("tensordot(x,x,2)", "anp.tensordot(x, x, 2)", (2, 2)), ("tensordot(x,x,axes-pairs)", "anp.tensordot(x, x, axes=([0], [1]))", (2, 2)),
+                          ("dot(x,x)", "anp.dot(x, x)", (2, 2)), ("dot(v,v)", "anp.dot(x, x)", (3,)), ("matmul(x,x)", "anp.matmul(x, x)", (2, 2)), ("inner(x,x)", "anp.inner(x, x)", (2, 2)),
+                          ("outer(x,x)", "anp.outer(x, x)", (2,)), ("kron(x,x)", "anp.kron(x, x)", (2,)), ("multiply(x,x)", "anp.multiply(x, x)", (3,)), ("x*x", "x * x", (3,)), ("add(x,x)", "anp.add(x, x)", (3,)),
+                          ("subtract(x,x)", "anp.subtract(x, x)", (3,)), ("concatenate([x,x])", "anp.concatenate([x, x])", (2,)), ("stack([x,x])", "anp.stack([x, x])", (2,)),
+                          ("einsum(x,x)", "anp.einsum('ij,jk->ik', x, x)", (2, 2)), ("einsum(x,x) trace", "anp.einsum('ij,ji->', x, x)", (2, 2)), ("where(c,x,x)", "anp.where(__import__('numpy').array([True, False, True]), x, x)", (3,)),
+                          ("array([x,x])", "anp.array([x, x])", (2,)), ("x[x-independent]+x", "x[[0, 0]] + x[:2]", (3,))):
+        add(f"same-value-twice {nm}", f"lambda anp, x: {expr}", [shp], second=nm in ("dot(x,x)", "x*x", "tensordot(x,x,1)"))
+    add("same-value-twice divide(x,x)", "lambda anp, x: anp.divide(x, x)", [(3,)], mode="lin", second=False)
+    add("same-value-twice power(x,x)", "lambda anp, x: anp.power(x, 2) * anp.power(x, 1)", [(3,)], second=False)
+    # a cotangent object that is SHARED between two uses must not be written by a rule (0-d: helpers return the cotangent itself)
+    for red in ("var", "std", "sum", "mean", "prod", "max", "min"):
+        for shp in ((), (1,), (2,)):
+            if red in ("std",) or (red in ("max", "min") and shp == (2,)):
+                continue
+            add(f"shared-cotangent 3*x+{red}(x)", f"lambda anp, x: 3 * x + anp.{red}(x)", [shp], second=False, mode="sym" if red not in ("max", "min") else "lin")
+            add(f"shared-cotangent {red}(x)+3*x", f"lambda anp, x: anp.{red}(x) + 3 * x", [shp], second=False, mode="sym" if red not in ("max", "min") else "lin")
+    for red in ("var", "sum", "mean", "prod", "max", "min", "std"):
+        for shp in ((), (1,)):   # in floats: 0-d NumPy arrays are mutable, exact scalars are not (at these shapes every one of the maps is affine, so float mode is exact)
+            if red == "std":
+                continue     # std of a single number: 0/0 in the rule (nan) - not an affine map at this point
+            add(f"shared-cotangent(float) 3*x+{red}(x)", f"lambda anp, x: 3 * x + anp.{red}(x)", [shp], second=False, mode="flt")
+            add(f"shared-cotangent(float) {red}(x)+3*x", f"lambda anp, x: anp.{red}(x) + 3 * x", [shp], second=False, mode="flt")
+    # np.array with ndmin / sequences of length one
+    add("array(ndmin=3) size-1 lead", "lambda anp, x: anp.array(x, ndmin=3)", [(1, 3)], second=False)
+    add("array(ndmin=3) size-1 tail", "lambda anp, x: anp.array(x, ndmin=3)", [(3, 1)], second=False)
+    add("array(ndmin=2) 1-element", "lambda anp, x: anp.array(x, ndmin=2)", [(1,)], second=False)
+    add("column_stack length-1 vectors", "lambda anp, x, y: anp.column_stack([x, y])", [(1,), (1,)], second=False)
+    add("column_stack 1-D and (n,1)", "lambda anp, x, y: anp.column_stack([x, y])", [(2,), (2, 1)], second=False)
+    add("concatenate one-element sequence", "lambda anp, x: anp.concatenate((x,))", [(2, 2)], second=False)
+    add("concatenate one-element axis=1", "lambda anp, x: anp.concatenate([x], axis=1)", [(2, 2)], second=False)
+    add("stack one-element", "lambda anp, x: anp.stack([x])", [(2,)], second=False)
+    add("hstack one-element", "lambda anp, x: anp.hstack([x])", [(2,)], second=False)
+    add("vstack one-element", "lambda anp, x: anp.vstack((x,))", [(2,)], second=False)
     add("einsum(list-form)", "lambda anp, x, y: anp.einsum(x, [0, 1], y, [1, 2], [0, 2])", [(2, 3), (3, 2)])
     add("einsum(list-form,ellipsis-mid)", "lambda anp, x, y: anp.einsum(x, [0, Ellipsis, 1], y, [1, 2], [0, Ellipsis, 2])", [(2, 2, 3), (3, 2)])
     add("einsum(list-form,ellipsis-tail,bcast)", "lambda anp, x, y: anp.einsum(x, [0, Ellipsis], y, [0, Ellipsis], [0, Ellipsis])", [(3,), (3, 2)])
@@ -241,6 +275,7 @@ def _cases(tier):
 
 # ----- index expressions (C11) ---------------------------------------------------------------------------------------
 INDEX_FORMS = [
+    ((4,), "[0, -4, 2]"), ((4,), "[3, -1]"), ((4,), "__import__('numpy').array([1, -3, -3])"), ((3, 4), "([0, -3], [1, -3])"), ((3, 4), "(slice(None), [0, -4])"),
     ((4,), "1"), ((4,), "-1"), ((4,), "slice(1, 3)"), ((4,), "slice(None, None, -1)"), ((4,), "slice(3, None, -2)"), ((4,), "[0, 0, 2]"), ((4,), "__import__('numpy').array([1, 1, 1, 3])"),
     ((4,), "__import__('numpy').array([True, False, True, True])"), ((4,), "Ellipsis"), ((4,), "None"), ((4,), "(None, slice(None, 2))"), ((4,), "[]"), ((4,), "[-1, 0]"),
     ((3, 4), "(slice(None), slice(None, None, -1))"), ((3, 4), "(slice(None, None, -1), slice(None))"), ((3, 4), "(slice(None, None, -1),)"), ((3, 4), "(slice(0, 3), slice(3, None, -1))"),
@@ -355,7 +390,7 @@ def run_case(case):
             if flt:
                 e = onp.zeros(n)
                 e[i] = 1.0
-                return e.reshape(shape) if shape != () else float(e[0])
+                return e.reshape(shape) if shape != () else onp.array(e[0])   # a 0-d ARRAY, as vspace(ans).ones() is: mutable, unlike a Python float
             e = onp.empty(n, dtype=object)
             for j in range(n):
                 e[j] = S.Sym(S.K(1 if j == i else 0))
